@@ -10,7 +10,7 @@ so, and then returns / raises as the scenario says.
 T_OVER_IN, T_UNDER_IN, NEWREQ, ROUTE_PRED, ROUTE_FACTORY, BEFORE_TRAV, ROOT_FACTORY, TRAVERSER, CTX_FOUND, \
     VIEW_PRED, PERMITS, VIEW, RENDERER, T_UNDER_OUT, T_OVER_OUT, RESP_CB, NEWRESP, FIN_CB, EXCVIEW, EXCVIEW_HTTP = range(1, 21)
 DEFAULT_VIEW = 21      # httpexceptions.default_exceptionresponse_view: not instrumented, seen only as the outcome
-POINT_NAMES = {1: 'tween-over-in', 2: 'tween-under-in', 3: 'NewRequest', 4: 'route-predicate', 5: 'route-factory',
+POINT_NAMES = {22: 'retry-marker', 1: 'tween-over-in', 2: 'tween-under-in', 3: 'NewRequest', 4: 'route-predicate', 5: 'route-factory',
                6: 'BeforeTraversal', 7: 'root-factory', 8: 'traverser', 9: 'ContextFound', 10: 'view-predicate',
                11: 'permission', 12: 'view', 13: 'renderer', 14: 'tween-under-out', 15: 'tween-over-out',
                16: 'response-callback', 17: 'NewResponse', 18: 'finished-callback', 19: 'exception-view',
@@ -268,16 +268,43 @@ def make_request(scn, level, cls=None):
     return r
 
 
-def build_app(mask):
+P_RETRY = 22
+
+
+def retry_policy(environ, router):
+    """a custom IExecutionPolicy that sends the SAME request object through router.invoke_request a second time
+    inside one request context: after a failure (mode 0) or always (mode 1); the scenario of the second attempt
+    is swapped in first"""
+    with router.request_context(environ) as request:
+        plan = environ['c13.retry']
+        try:
+            response = router.invoke_request(request)
+            if not plan['mode']:
+                return response
+        except Exception:
+            pass
+        _log(request, P_RETRY)
+        request.environ['c13.scn'] = plan['scn2']
+        return router.invoke_request(request)
+
+
+def build_app(mask, retry=False):
     """mask: bit 0 exception view for Exception, bit 1 exception view for HTTPException,
     bit 2 the default exceptionresponse view stays enabled, bit 3 the event subscribers are registered (and
-    committed) only AFTER make_wsgi_app() built the router from a registry without any subscriber"""
+    committed) only AFTER make_wsgi_app() built the router from a registry without any subscriber,
+    bit 4 HISTORY on the long-lived registry before any request is served: a temporary probe handler and a
+    temporary subscription adapter are registered and removed again through the registry's own API
+    (registerHandler / unregisterHandler, registerSubscriptionAdapter / unregisterSubscriptionAdapter), a handler
+    that was never registered is unregistered, and a subscriber added through the Configurator is removed --
+    the permanent subscribers must keep firing"""
     from pyramid.config import Configurator
     from pyramid.httpexceptions import HTTPException
     from pyramid.events import NewRequest, BeforeTraversal, ContextFound, NewResponse
     from pyramid.tweens import EXCVIEW as EXCVIEW_TWEEN
     config = Configurator() if mask & 4 else Configurator(exceptionresponse_view=None)
     config.set_security_policy(Policy())
+    if retry:
+        config.set_execution_policy(retry_policy)
     config.add_route_predicate('c13', RoutePred)
     config.add_view_predicate('c13v', ViewPred)
     config.add_route('r', '/r/*rest', factory=route_factory, c13=True, use_global_views=True)
@@ -302,26 +329,53 @@ def build_app(mask):
     if mask & 8:
         subscribe()
         config.commit()
+    if mask & 16:
+        from zope.interface import Interface
+        from pyramid.interfaces import INewRequest, INewResponse, IApplicationCreated
+        reg = app.registry
+
+        def probe(event):
+            raise AssertionError('removed probe called')
+
+        def never(event):
+            raise AssertionError('never registered')
+
+        class _IProbe(Interface):
+            pass
+        reg.registerHandler(probe, (INewRequest,))
+        assert reg.unregisterHandler(probe, (INewRequest,)) is True
+        assert reg.unregisterHandler(never, (INewResponse,)) is False
+        reg.registerSubscriptionAdapter(lambda ev: None, (IApplicationCreated,), _IProbe)
+        reg.unregisterSubscriptionAdapter(required=(IApplicationCreated,), provided=_IProbe)
+        before = set(id(h.handler) for h in reg.registeredHandlers())
+        config.add_subscriber(probe, INewResponse)
+        config.commit()
+        added = [h for h in reg.registeredHandlers() if id(h.handler) not in before]
+        assert len(added) == 1
+        assert reg.unregisterHandler(added[0].handler, added[0].required) is True
     return app
 
 
-def get_app(mask):
-    k = int(mask) & 15
+def get_app(mask, retry=False):
+    k = (int(mask) & 31, bool(retry))
     if k not in _APPS:
-        _APPS[k] = build_app(k)
+        _APPS[k] = build_app(k[0], retry)
     return _APPS[k]
 
 
 def run_request(case, hook=None):
     """-> [outcome, final depth (relative), log]"""
     from pyramid.threadlocal import manager
-    app = get_app(case['excview'])
+    retry = case.get('t') == 'retry'
+    app = get_app(case['excview'], retry)
     base = len(manager.stack)
     _T.log = []
     _T.base = base
     req = make_request(case['scn'], 0)
     if hook is not None:
         req.environ['c13.hook'] = hook
+    if retry:
+        req.environ['c13.retry'] = {'mode': case['mode'], 'scn2': case['scn2']}
     status = []
     try:
         try:
